@@ -46,6 +46,9 @@ theorem state_share_determined (C : FieldCtx F) (cfg : Cfg) (cv : Conv F) (xof :
       obtain ⟨m, p⟩ := mp
       rw [h1] at h
       simp only at h
+      by_cases hpl : p.length ≠ cfg.t.proofLen * cfg.numProofs
+      · rw [if_pos hpl] at h; cases h
+      rw [if_neg hpl] at h
       cases h2 : viJointRand cfg cv xof ctx aggId nonce pp msg.blind m with
       | err => rw [h2] at h; cases h
       | panic => rw [h2] at h; cases h
